@@ -137,8 +137,11 @@ def all_effects(fn):
 def err_returns(fn, adt="Error"):
     """Blocks assigning _0 = Err(<adt>::V ...) -> list of (block, idx, variant, term)."""
     out = []
+    # the result locals of helpers that were inlined into fn (analysis/lower.py): an Err built there leaves fn through the `?`
+    # / return that consumed the helper's result, so it counts as one of fn's own error exits
+    inl = {blk["inl_ret"] for blk in fn.blocks if blk.get("inl_ret") is not None and blk.get("inl") != "closure"}
     for b, i, s in fn.stmts():
-        if s["k"] == "Assign" and s["p"]["l"] == 0 and not s["p"]["proj"]:
+        if s["k"] == "Assign" and (s["p"]["l"] == 0 or s["p"]["l"] in inl) and not s["p"]["proj"]:
             v = fn.term_of_rvalue(s["rv"], b)
             if v[0] == "agg" and v[2] and v[2].endswith("Result::Err"):
                 inner = v[3][0]
